@@ -53,7 +53,7 @@ func GenTaskParams(r *rand.Rand) types.TaskParams {
 		AggregationWindow:  r.Int63n(40),
 		AggregationResult:  sdk.NewInt(r.Int63n(100)),
 		ThresholdScore:     sdk.NewInt(r.Int63n(100)),
-		Epsilon1:           sdk.NewInt(r.Int63n(10)),
+		Epsilon1:           sdk.NewInt(r.Int63n(10) + 1),
 		Epsilon2:           sdk.NewInt(r.Int63n(10) + 90),
 	}
 }
